@@ -37,3 +37,34 @@ func VerifC18PluginOptions() {
 	h, err := BuildChain(pc, http.HandlerFunc(func(http.ResponseWriter, *http.Request) {}))
 	verifrt.Assert(err == nil && h != nil, "the documented plugin options (as in the shipped helios.yaml) are accepted whether YAML delivers numbers as int or float")
 }
+
+// VerifC18PluginOmissions: a chain entry may leave out the whole config block
+// (the YAML loader then delivers a nil map), give an empty one, or set only
+// some options. For every built-in plugin and each of these forms chain
+// construction either succeeds or fails with an error - it never panics - and
+// for size_limit, whose two limits are documented with defaults (10MB / 50MB),
+// every such form is accepted.
+func VerifC18PluginOmissions() {
+	names := []string{"logging", "size_limit", "gzip", "headers", "custom-auth", "request-id"}
+	name := names[verifrt.Choice("plugin", len(names))]
+	var cfg map[string]interface{}
+	switch verifrt.Choice("configForm", 4) {
+	case 0: // no config key at all
+	case 1:
+		cfg = map[string]interface{}{}
+	case 2:
+		cfg = map[string]interface{}{"max_request_body": 1024}
+	case 3:
+		cfg = map[string]interface{}{"max_response_body": 1024}
+	}
+	pc := config.PluginsConfig{Enabled: true, Chain: []config.PluginConfig{{Name: name, Config: cfg}}}
+	h, err := BuildChain(pc, http.HandlerFunc(func(http.ResponseWriter, *http.Request) {}))
+	verifrt.Assert((err == nil) == (h != nil), "chain construction yields a handler or an error, never both, never neither")
+	if name == "size_limit" || name == "logging" {
+		verifrt.Assert(err == nil, "plugins whose options all have documented defaults are accepted with the config block omitted, empty or partial")
+	}
+	if err == nil {
+		rec := verifNewRecorder()
+		h.ServeHTTP(rec, verifRequest())
+	}
+}
